@@ -236,6 +236,22 @@ def run(mod, tier, seed, replay=None):
                    [f"{getattr(mod, 'CORR_NAME', 'Corr_' + pid)}: model and implementation disagree on this case; "
                     f"the direct check found no property failure: no-failing-input-found"],
                    {"obligation": getattr(mod, "CORR_NAME", f"Corr_{pid}.model_matches_impl"), "model_output": shown})
+    # explicit witnesses of recorded findings (re-run on the implementation on every run)
+    if hasattr(mod, "witnesses") and not replay:
+        try:
+            for sig, msg, wcase in mod.witnesses(ctx):
+                k = matches_known(pid, sig, known)
+                if k is not None:
+                    known_hits.append((k, [msg]))
+                else:
+                    nrep += 1
+                    path = write_replay(pid, nrep, {"property": pid, "kind": "property-fails-on-implementation",
+                                                    "messages": [msg], "case": wcase, "signature": sig})
+                    violations.append(("property-fails-on-implementation", path, [msg]))
+        except Exception as e:
+            nrep += 1
+            path = write_replay(pid, nrep, {"property": pid, "kind": "witness-crashed", "detail": traceback.format_exc()[-2000:]})
+            violations.append(("correspondence-not-evaluable", path, [f"witness replay crashed: {e}"]))
     if proof_fail is not None:
         nrep += 1
         path = write_replay(pid, nrep, {"property": pid, "kind": "proof-broken", "obligation": mod.PROPS,
@@ -286,7 +302,7 @@ def run(mod, tier, seed, replay=None):
     ev = {"property_id": pid, "tier": tier, "seed": seed, "level": getattr(mod, "LEVEL", "proof"),
           "coverage": cov, "assumptions": getattr(mod, "ASSUMPTIONS", []),
           "wall_s": round(time.time() - ctx.t0, 2), "violations": len(violations)}
-    if not replay:
+    if not replay and os.environ.get("VERIF_NO_EVIDENCE") != "1":
         os.makedirs(os.path.join(VERIF, "evidence"), exist_ok=True)
         json.dump(ev, open(os.path.join(VERIF, "evidence", pid + ".json"), "w"), indent=1, default=str)
 
